@@ -1,20 +1,34 @@
 #!/bin/bash
-# Confirm a seeded change delivered by a blind sub-agent in /tmp/seed-<ID>-<n> (both diffs applied there):
-#  1. with patch: whole existing suite passes (except tests that also fail on the unmodified checkout), demo FAILS
-#  2. without patch: demo PASSES
-# Then store it under /verif/seeded/<ID>-<n>/ (patch.diff, demo.diff, meta.json + confirmation log).
+# tools/confirm_seed.sh <ID> <n>: confirm a stored seeded change on the shared scratch worktree /tmp/confirm-wt:
+#  with patch: existing suite passes (apart from tests failing on the unmodified checkout too), demo FAILS;
+#  without patch: demo PASSES. Writes /verif/seeded/<ID>-<n>/confirm.log and meta.json["confirmed"].
 set -u
-id="$1"; n="$2"; wt="/tmp/seed-$id-$n"; out="$wt-out"; dst="/verif/seeded/$id-$n"
+id="$1"; n="$2"; dst="/verif/seeded/$id-$n"; wt=/tmp/confirm-wt
+[ -d "$wt" ] || git -C /repo worktree add -q --detach "$wt" HEAD || exit 2
 cd "$wt" || exit 2
-demo=$(python3 -c "import json;print(json.load(open('$out/meta.json'))['demo_cmd'])")
-log="$out/confirm.log"; : > "$log"
-echo "## suite with patch (+demo)" >> "$log"
+git checkout -q -- . && git clean -fdq -e target && git checkout -q --detach "$(git -C /repo rev-parse HEAD)" || exit 2
+git apply "$dst/patch.diff" && git apply "$dst/demo.diff" || { echo "diffs do not apply to HEAD" > "$dst/confirm.log"; exit 3; }
+demo=$(python3 -c "import json;print(json.load(open('$dst/meta.json'))['demo_cmd'])")
+log="$dst/confirm.log"; : > "$log"
+echo "## suite with patch (+demo) at $(git -C /repo rev-parse --short HEAD)" >> "$log"
 flock /tmp/suite.lock cargo test --workspace --no-fail-fast --offline 2>&1 | grep -E "^test result|^test .* FAILED" >> "$log"
 echo "## demo with patch: $demo" >> "$log"
 ( eval "$demo" 2>&1 | grep -E "^test result|^test .*(FAILED|ok)$" ) >> "$log"
-git apply -R "$out/patch.diff" || { echo "cannot unapply" >> "$log"; exit 2; }
+git apply -R "$dst/patch.diff" || { echo "cannot unapply" >> "$log"; exit 2; }
 echo "## demo without patch" >> "$log"
 ( eval "$demo" 2>&1 | grep -E "^test result|^test .*(FAILED|ok)$" ) >> "$log"
-git apply "$out/patch.diff"
-mkdir -p "$dst" && cp "$out/patch.diff" "$out/demo.diff" "$out/meta.json" "$log" "$dst/"
-cat "$log" | cut -c1-200
+git checkout -q -- . ; git clean -fdq -e target
+python3 - "$dst" <<'PY'
+import json,sys,re
+dst=sys.argv[1]; log=open(f"{dst}/confirm.log").read()
+parts=log.split("## ")
+suite=[p for p in parts if p.startswith("suite")][0]; withp=[p for p in parts if p.startswith("demo with patch")][0]; without=[p for p in parts if p.startswith("demo without")][0]
+failed=set(re.findall(r"^test (\S+) \.\.\. FAILED",suite,re.M))
+baseline={"daemon::spawn::csptp::tests::creates_a_source","daemon::spawn::csptp::tests::recreates_a_source","test::test_ipv4","test::test_ipv6"}
+demo_failed=set(re.findall(r"^test (\S+) \.\.\. FAILED",withp,re.M))
+unexpected=failed-baseline-demo_failed
+ok = bool(demo_failed) and "FAILED" not in without and "passed" in without and not unexpected
+m=json.load(open(f"{dst}/meta.json")); m["confirmed"]=ok
+m["confirmation"]={"suite_failures_other_than_demo_and_sandbox_baseline":sorted(unexpected),"demo_fails_with_patch":bool(demo_failed),"demo_passes_without_patch":"FAILED" not in without and "passed" in without,"note":"statime-netptp test_ipv4/test_ipv6 are load-flaky socket-timestamp tests and the two ntpd spawn::csptp tests fail on the unmodified checkout in this sandbox"}
+json.dump(m,open(f"{dst}/meta.json","w"),indent=1); print(dst,"confirmed=",ok,sorted(unexpected)[:3])
+PY
